@@ -1007,7 +1007,7 @@ class SpecArray(object):
 
         fp, hs, gamma = xr.apply_ufunc(
             fit_jonswap_params,
-            self.oned(),
+            self.oned().chunk({attrs.FREQNAME: -1}),
             self.freq,
             self.fp(smooth=True),
             self.hs(),
@@ -1053,7 +1053,7 @@ class SpecArray(object):
 
         fp, hs, gw = xr.apply_ufunc(
             fit_gaussian_params,
-            self.oned(),
+            self.oned().chunk({attrs.FREQNAME: -1}),
             self.freq,
             self.fp(smooth=True),
             self.hs(),
